@@ -121,6 +121,85 @@ def stepIssue (d : DState) (toks : List String) : DState × String :=
       ({ d with clock := now }, showIssue srv req (createCertificate repoGuard id srv c os req now))
   | _ => (d, "bad-op")
 
+/-! ### stream `authn` -/
+
+def showKube (k : KubeInfo) : String :=
+  enc ("|".intercalate ([k.podName, k.podNamespace, k.podUID, k.podSA].map enc))
+
+def showClient : Option Client → String
+  | none => ""
+  | some .primary => " via=primary"
+  | some (.remote id) => " via=" ++ enc ("remote:" ++ id)
+
+def showAuthRes (r : AuthRes) (via : Option Client) : String :=
+  match r with
+  | .crash => "crash"
+  | .nil => "nil"
+  | .err => "err" ++ showClient via
+  | .ok c => s!"ok ids={encList c.identities} kube={showKube c.kube}" ++ showClient via
+
+def extraOf (t : String) : Option (List String) :=
+  if t.startsWith "=" then (if t == "=" then some [] else some (decList ((t.drop 1).toString))) else none
+
+def aliasPair (s : String) : String × String :=
+  match s.splitOn "=" with
+  | [k] => (k, "")
+  | k :: rest => (k, "=".intercalate rest)
+  | [] => ("", "")
+
+def hexNib (c : Char) : Nat := (hexVal c).getD 0
+
+def hexBytes : List Char → List Nat
+  | a :: b :: rest => (hexNib a * 16 + hexNib b) :: hexBytes rest
+  | _ => []
+
+def sanValue (e : String) : String :=
+  if e.startsWith "I:" then String.ofList ((hexBytes ((e.drop 2).toString.toList)).map Char.ofNat)
+  else (e.drop 2).toString
+
+def certOf (spec : String) : CertSAN :=
+  if spec == "nosan" then .noSan
+  else if spec == "bad" then .bad
+  else if spec.startsWith "san:" then .san ((decList ((spec.drop 4).toString)).map sanValue)
+  else .bad
+
+def chainOf (s : String) : List CertSAN :=
+  if s.isEmpty then [] else (s.splitOn "|").map (fun c => certOf (dec c))
+
+def xfccElemOf (s : String) : XfccElem :=
+  let f := decFields s
+  { uris := decList (fieldAt f 0), dns := decList (fieldAt f 1),
+    subject := if fieldAt f 2 == "1" then some (fieldAt f 3) else none }
+
+def stepAuthn (toks : List String) : String :=
+  match toks with
+  | ["oidc", td, expected, tokkind, sub, audkind, aud] =>
+    let tok : OidcTok :=
+      if tokkind == "nohdr" then .noHeader
+      else if tokkind != "ok" then .rejected
+      else if audkind == "string" then .badClaims
+      else .claims (if sub == "absent" then "" else dec sub) (if audkind == "absent" then [] else decList aud)
+    showAuthRes (oidcAuthenticate repoOidcFixed (dec td) (decList expected) tok) none
+  | ["kube", td, primary, aliases, remotes, clusterHdr, tokHdr, review] =>
+    let f := decFields (dec review)
+    let r : Review := { apiErr := fieldAt f 0 == "1", error := fieldAt f 1, authenticated := fieldAt f 2 == "1",
+                        groups := decList (fieldAt f 3), username := fieldAt f 4,
+                        podName := extraOf (fieldAt f 5), podUID := extraOf (fieldAt f 6) }
+    let cfg : KubeCfg := { primary := dec primary, aliases := (decList aliases).map aliasPair,
+                           remotes := if remotes == "nil" then none else some (decList remotes) }
+    let hdr := if clusterHdr == "-" then none else some (decList clusterHdr)
+    let res := kubeAuthenticate (dec td) cfg hdr (tokHdr == "bearer") r
+    showAuthRes res.1 res.2
+  | ["xfcc", cidrs, peerAddr, hdrs, parsed] =>
+    let addr := if peerAddr == "nopeer" then "unknown" else dec peerAddr
+    let hs := if hdrs == "-" then [] else decList hdrs
+    let p := if parsed == "err" then none else some ((decList parsed).map xfccElemOf)
+    showAuthRes (xfccAuthenticate (decList cidrs) addr hs p) none
+  | ["cert", kind, chains] =>
+    let k : PeerKind := if kind == "tls" then .tls else if kind == "noauth" then .noAuth else if kind == "other" then .other else .noPeer
+    showAuthRes (certAuthenticate k ((decList chains).map chainOf)) none
+  | _ => "bad-op"
+
 def stepD (d : DState) (toks : List String) : DState × String :=
   match toks with
   | "case" :: _ => ({}, "ok")
